@@ -608,7 +608,8 @@ def main_check(h, tier, seed, replay=None):
         os.makedirs(os.path.join(VERIF, 'evidence'), exist_ok=True)
         json.dump(_jsonable(ev), open(os.path.join(VERIF, 'evidence', pid + '.json'), 'w'), indent=1, sort_keys=True)
     json.dump(_jsonable(report), open(os.path.join(WORK, pid, 'report.json'), 'w'), indent=1, default=str)
-    if exit_code == 0:
+    if exit_code == 0 or not os.environ.get('VERIF_KEEP_WORK'):
+        # the generated case files are large; a failing run keeps them only on request (the replay file has the input)
         shutil.rmtree(workdir, ignore_errors=True)
     for l in lines:
         print(l)
